@@ -207,9 +207,12 @@ func init() {
 		Level: "exploration",
 		Rule: "PRNG operation scripts over the public API (paragraph/table/image/header/footer/note/list/TOC/properties/page/math/style calls, hostile corpus strings, reopen and template-render steps), " +
 			"each saved through ToBytes and Save up to 3 times, plus hostile Markdown through ConvertFile, plus harness-written foreign packages (own content-type defaults, arbitrary ids/prefixes/parts) that are opened and extended; every produced package is read by the independent OPC monitor (zip-readable, xml-wellformed, ns-unbound, content-types, main-part). " +
-			"A case is non-trivial if it executed >=3 distinct call kinds and at least one package was parsed; distinct = distinct call sequence.",
+			"Thorough tier, case 0: the repository's own test suite and every program under examples/ are run in a scratch copy of the tree and every .docx they leave behind goes through the same monitor. A case is non-trivial if it executed >=3 distinct call kinds and at least one package was parsed; distinct = distinct call sequence.",
 		Cases: func(t string) int { return tierN(t, 1600, 40000) },
 		Run: func(c *core.Ctx) *core.Result {
+			if c.Tier == "thorough" && c.Case == 0 {
+				return repoProgramsCase(c, (*opc.Package).CheckC01)
+			}
 			if c.Case%8 == 7 {
 				return markdownCase(c, (*opc.Package).CheckC01)
 			}
@@ -222,7 +225,7 @@ func init() {
 			return scriptCase(c, true, tierN(c.Tier, 40, 120), nil, (*opc.Package).CheckC01, 3)
 		},
 		Assume:        []string{"archive/zip and encoding/xml of the Go standard library are the trusted readers", "only calls that returned without panic contribute; a panicking call quarantines the document"},
-		CaseTimeoutS:  60,
+		CaseTimeoutS:  300,
 		MinNontrivial: 50,
 		SelfTest:      selfTestOPC,
 	})
@@ -235,6 +238,9 @@ func init() {
 			"every saved package goes through the relationship monitor (unique ids per .rels, internal targets exist, owner part, r:id/r:embed references resolve to the matching kind). Non-trivial: >=3 call kinds and >=1 relationship checked; distinct = distinct call sequence.",
 		Cases: func(t string) int { return tierN(t, 2400, 60000) },
 		Run: func(c *core.Ctx) *core.Result {
+			if c.Tier == "thorough" && c.Case == 0 {
+				return repoProgramsCase(c, (*opc.Package).CheckC02)
+			}
 			if c.Case%6 == 5 {
 				return renderSiblingsCase(c, (*opc.Package).CheckC02, map[string]int{"AddImageFromData": 30, "Header/Footer": 10, "AddParagraph": 3, "Table.content": 8, "AddTable": 3, "Reopen": 0, "RenderAsTemplate": 0, "AddImageFromFile": 3, "Properties": 3})
 			}
@@ -246,7 +252,7 @@ func init() {
 			return res
 		},
 		Assume:        []string{"relationship types are compared by their last path segment", "ownership rule: styles/numbering/footnotes/endnotes/settings/header/footer/image belong to the main part's .rels, officeDocument/core/extended properties to _rels/.rels"},
-		CaseTimeoutS:  60,
+		CaseTimeoutS:  300,
 		MinNontrivial: 50,
 		SelfTest:      selfTestOPC,
 	})
@@ -258,6 +264,9 @@ func init() {
 			"every saved package: each pStyle/rStyle/tblStyle is defined in the styles part, each numId has w:num + w:abstractNum, each note reference id is in the notes part; styles defined through the style API must appear in the next save. Non-trivial: >=3 call kinds and >=1 id resolved.",
 		Cases: func(t string) int { return tierN(t, 2400, 60000) },
 		Run: func(c *core.Ctx) *core.Result {
+			if c.Tier == "thorough" && c.Case == 0 {
+				return repoProgramsCase(c, (*opc.Package).CheckC13)
+			}
 			switch c.Case % 6 {
 			case 4:
 				return markdownCase(c, (*opc.Package).CheckC13)
@@ -267,7 +276,7 @@ func init() {
 			return c13ScriptCase(c, idWeights)
 		},
 		Assume:        []string{"existence of the id is checked, not the style's w:type", "SetStyle with an id the caller never defined is generated only for ids the library itself defines or that the script created"},
-		CaseTimeoutS:  60,
+		CaseTimeoutS:  300,
 		MinNontrivial: 50,
 		SelfTest:      selfTestOPC,
 	})
